@@ -619,7 +619,10 @@ class GBNFCompiler:
         rules: list[str] = []
 
         # Add primitives
-        rules.append("# GBNF Grammar for OCTAVE schema: " + schema.name)
+        # The schema name and the field names are data: keep the comment on one line and
+        # escape them inside literals so that a quote, backslash or newline cannot end the
+        # comment or the literal early.
+        rules.append("# GBNF Grammar for OCTAVE schema: " + " ".join(str(schema.name).split()))
         rules.append("")
 
         # Whitespace rule
@@ -651,7 +654,7 @@ class GBNFCompiler:
                 pattern = "[^\\n]*"
 
             # Create field rule: field-name ::= "FIELD_NAME" "::" ws pattern
-            rules.append(f'{rule_name} ::= "{field_name}" "::" ws {pattern}')
+            rules.append(f'{rule_name} ::= "{self._escape_literal(field_name)}" "::" ws {pattern}')
 
         rules.append("")
 
@@ -669,7 +672,7 @@ class GBNFCompiler:
         # Build document structure
         if include_envelope:
             schema_name = schema.name.upper()
-            rules.append(f'envelope-start ::= "==={schema_name}==="')
+            rules.append(f'envelope-start ::= "==={self._escape_literal(schema_name)}==="')
             rules.append('envelope-end ::= "===END==="')
             rules.append("")
             rules.append('meta-block ::= "META:" ws meta-content')
